@@ -314,6 +314,18 @@ def evict (now : Nat) (c : Cfg) (fs : FS) (inv : List Row) : EvictRes :=
 def evictLegacy (now : Nat) (c : Cfg) (fs : FS) (inv : List Row) : EvictRes :=
   evictCoreLegacy (sortLRU inv) now c fs inv
 
+/-! ### Specification side (used in the statements of the C15 theorems and by the judge) -/
+
+/-- total recorded size when every stored size is a valid non-negative number -/
+def sumNat : List Row → Nat
+  | [] => 0
+  | r :: rs => r.size.toNat + sumNat rs
+
+/-- the shortest prefix of `l` whose sizes cover `excess` (empty when `excess = 0`) -/
+def selectPrefix : Nat → List Row → List Row
+  | _, [] => []
+  | e, r :: rs => if e = 0 then [] else r :: selectPrefix (e - r.size.toNat) rs
+
 /-! ### The whole manager as a state machine (what the driver runs) -/
 
 structure Mgr where
